@@ -262,10 +262,9 @@ class DAGRunConcurrentManager(DAGRunManagerLike):
             Args:
                 u -  Node
             """
-            return not self.dag.graph.nodes[u].get(NodeField.is_oneof_child)
-
-        if is_oneof:
-            self.dag.graph.nodes[dest][NodeField.is_oneof_child] = False
+            # The destination of a OneOf subgraph is a OneOf child itself and must stay visible.
+            # The shared graph must not be changed here, it is reused by other runs.
+            return u == dest or not self.dag.graph.nodes[u].get(NodeField.is_oneof_child)
 
         return get_connected_subgraph(
             dag=nx.subgraph_view(self.dag.graph, filter_edge=_filter, filter_node=_filter_node),
